@@ -546,6 +546,7 @@ func (w *world) leaderChange(enabled bool) {
 	nw.start()
 	w.term++
 	nw.becomeLeader(w.term, enabled, false)
+	server.VerifWrapLeaderDB(nw.lc, func(d kv.DB) kv.DB { return &gateDB{DB: d} })
 	w.leader = nw
 	w.enabled = enabled
 	old.destroy()
@@ -687,6 +688,7 @@ func runScenario(o *hx.Out, rng *hx.Rng, tag string, script func(w *world)) {
 	w.leader = newNode(shard)
 	w.leader.start()
 	w.leader.becomeLeader(1, true, false)
+	server.VerifWrapLeaderDB(w.leader.lc, func(d kv.DB) kv.DB { return &gateDB{DB: d} })
 	defer func() {
 		for _, s := range w.subs {
 			_ = s.disconnect()
@@ -727,6 +729,63 @@ func scriptBehindTrimThenWrites(w *world) {
 	w.o.Count("scenario:behind-trim-then-writes")
 }
 
+func (w *world) randomPlan() map[gatePoint]int {
+	plan := map[gatePoint]int{}
+	for i, n := 0, 1+w.rng.Intn(3); i < n; i++ {
+		plan[gatePoint{hx.Pick(w.rng, []string{"pre", "scan", "post", "post"}), 1 + w.rng.Intn(2)}] = 1 + w.rng.Intn(2)
+	}
+	return plan
+}
+
+// gatedStep: a subscriber resuming behind a fully trimmed range / inside a partly trimmed range / at the commit
+// offset / ahead of it / without a position, with requests committing at chosen points of its dispatch loop
+func (w *world) gatedStep(kind int, plan map[gatePoint]int) {
+	c := w.nextOff - 1
+	offs, _ := w.storedOffsets()
+	switch kind {
+	case 0: // behind a fully trimmed range
+		if len(offs) > 0 {
+			time.Sleep(2 * time.Millisecond)
+			w.trim(time.Now().UnixMilli(), 1)
+		}
+		s := int64(-1)
+		if c > 0 {
+			s = int64(w.rng.Intn(int(c)))
+		}
+		w.gatedStream(p64(s), plan, "behind a fully trimmed range")
+	case 1: // inside a partly trimmed range
+		if len(offs) >= 2 {
+			_, byOff := w.storedOffsets()
+			w.trim(int64(byOff[offs[len(offs)/2]].Timestamp), 0)
+		}
+		offs, _ = w.storedOffsets()
+		s := c
+		if len(offs) > 0 {
+			s = hx.Pick(w.rng, offs) - int64(w.rng.Intn(2))
+		}
+		w.gatedStream(p64(s), plan, "inside a partly trimmed range")
+	case 2:
+		w.gatedStream(p64(c), plan, "at the commit offset")
+	case 3:
+		w.gatedStream(p64(c+1+int64(w.rng.Intn(2))), plan, "ahead of the commit offset")
+	default:
+		w.gatedStream(nil, plan, "new subscriber")
+	}
+}
+
+// every position, with commits right after the first scan returned and before / inside the second read
+func scriptGated(w *world) {
+	for i := 0; i < 4; i++ {
+		w.write(w.genRequest())
+	}
+	for kind := 0; kind < 5; kind++ {
+		w.gatedStep(kind, map[gatePoint]int{{"post", 1}: 2})
+		w.gatedStep(kind, map[gatePoint]int{{"scan", 1}: 1, {"pre", 2}: 1, {"scan", 2}: 1})
+		w.write(w.genRequest())
+	}
+	w.o.Count("scenario:gated-positions")
+}
+
 func scriptRandom(w *world) {
 	rng := w.rng
 	steps := 10 + rng.Intn(18)
@@ -757,9 +816,11 @@ func scriptRandom(w *world) {
 				en = !en
 			}
 			w.leaderChange(en)
-		case x < 90:
+		case x < 87:
+			w.gatedStep(rng.Intn(5), w.randomPlan())
+		case x < 92:
 			w.trimWithWrite(int64(hx.Pick(rng, []int{1, 5, 1000})), w.genRequest())
-		case x < 97:
+		case x < 98:
 			offs, byOff := w.storedOffsets()
 			if len(offs) == 0 {
 				break
@@ -784,9 +845,8 @@ func scriptRandom(w *world) {
 
 func genCases(o *hx.Out, rng *hx.Rng, n int) {
 	runScenario(o, rng.Fork(), "empty-shard-reconnect", scriptEmptyShardReconnect)
-	for i := 0; i < 3; i++ {
-		runScenario(o, rng.Fork(), fmt.Sprintf("behind-trim-then-writes#%d", i), scriptBehindTrimThenWrites)
-	}
+	runScenario(o, rng.Fork(), "gated-positions", scriptGated)
+	runScenario(o, rng.Fork(), "behind-trim-then-writes", scriptBehindTrimThenWrites)
 	for c := 0; c < n; c++ {
 		runScenario(o, rng.Fork(), fmt.Sprintf("notif#%d", c), scriptRandom)
 	}
